@@ -26,19 +26,19 @@ __CPROVER_assigns();
 /* derived ghost scalars of segment g_pj (recorded with it; tied to their definitions by SEG_DEFS) */
 extern size_t g_rend, g_rnext, g_rnout;      /* end of the copy run, start of the next segment, output offset of the next segment */
 #define SEG_MATCH (g_rfind != C8_NPOS)
-#define SEG_DEFS (g_rend == (SEG_MATCH ? g_rfind : s->size) && g_rnext == (SEG_MATCH ? g_rfind + g_tlen : s->size) && \
+#define SEG_DEFS (g_rend == (SEG_MATCH ? g_rfind : g_srcsize) && g_rnext == (SEG_MATCH ? g_rfind + g_tlen : g_srcsize) && \
                   g_rnout == g_rout + (g_rend - g_rstart) + (SEG_MATCH ? g_rlen : 0))
 /* facts about segment g_pj once it has been recorded (shared by the loop invariant and the postcondition) */
-#define SEG_SHAPE (g_rstart <= g_rend && g_rend <= g_rnext && g_rnext <= s->size && (SEG_MATCH ==> g_rnext - g_rend == g_tlen))
-#define SEG_IS_MATCH ((SEG_MATCH && g_sk < g_tlen && g_rend <= s->size && g_tlen <= s->size - g_rend) ==> s->data[g_rend + g_sk] == target[g_sk])
-#define SEG_LEFTMOST ((g_cand >= g_rstart && g_cand < g_rend && g_cand <= s->size && g_tlen <= s->size - g_cand) ==> (g_rwit < g_tlen && s->data[g_cand + g_rwit] != target[g_rwit]))
-#define SEG_COPIED ((g_obase == g_rout && g_rstart <= g_rend && g_rend <= s->size && g_rk < g_rend - g_rstart) ==> g_oval == s->data[g_rstart + g_rk])
+#define SEG_SHAPE (g_rstart <= g_rend && g_rend <= g_rnext && g_rnext <= g_srcsize && (SEG_MATCH ==> g_rnext - g_rend == g_tlen))
+#define SEG_IS_MATCH ((SEG_MATCH && g_sk < g_tlen && g_rend <= g_srcsize && g_tlen <= g_srcsize - g_rend) ==> g_srcd[g_rend + g_sk] == target[g_sk])
+#define SEG_LEFTMOST ((g_cand >= g_rstart && g_cand < g_rend && g_cand <= g_srcsize && g_tlen <= g_srcsize - g_cand) ==> (g_rwit < g_tlen && g_srcd[g_cand + g_rwit] != target[g_rwit]))
+#define SEG_COPIED ((g_obase == g_rout && g_rstart <= g_rend && g_rend <= g_srcsize && g_rk < g_rend - g_rstart) ==> g_oval == g_srcd[g_rstart + g_rk])
 #define SEG_REPLACED ((SEG_MATCH && g_obase == g_rnout - g_rlen && g_rk < g_rlen) ==> g_oval == replacement[g_rk])
 
 void str_replace_all(vout* ret, const vstr* s, const char* target, const char* replacement)
 OUT_REQ(ret) SRC_REQ(s) CSTR_REQ(target, g_tlen, g_tptr) CSTR_REQ(replacement, g_rlen, g_rptr)
 __CPROVER_requires(g_tlen > 0)                                    /* the property's precondition: non-empty target */
-__CPROVER_requires(g_pj < VSTR_MAXCAP)
+__CPROVER_requires(g_pj < VSTR_MAXCAP && g_srcd == s->data && g_srcsize == s->size)   /* ghost copies used by the SEG_* clauses */
 __CPROVER_ensures(g_it == 0 ==> (s->size == 0 && ret->size == 0))
 __CPROVER_ensures((g_pj < g_it && g_pj == 0) ==> (g_rstart == 0 && g_rout == 0))
 __CPROVER_ensures(g_pj < g_it ==> SEG_DEFS)
@@ -47,7 +47,7 @@ __CPROVER_ensures(g_pj < g_it ==> SEG_IS_MATCH)
 __CPROVER_ensures(g_pj < g_it ==> SEG_LEFTMOST)
 __CPROVER_ensures(g_pj < g_it ==> SEG_COPIED)
 __CPROVER_ensures(g_pj < g_it ==> SEG_REPLACED)
-__CPROVER_ensures(g_pj + 1 < g_it ==> (g_nstart == g_rnext && g_nout == g_rnout && g_nstart < s->size))
-__CPROVER_ensures(g_pj + 1 == g_it ==> (g_rnext == s->size && ret->size == g_rnout))
+__CPROVER_ensures(g_pj + 1 < g_it ==> (g_nstart == g_rnext && g_nout == g_rnout && g_nstart < g_srcsize))
+__CPROVER_ensures(g_pj + 1 == g_it ==> (g_rnext == g_srcsize && ret->size == g_rnout))
 __CPROVER_assigns(ret->size, g_oval, g_wit, g_it, g_rstart, g_rfind, g_rout, g_nstart, g_nout, g_rwit, g_rend, g_rnext, g_rnout);
 #endif
